@@ -33,7 +33,7 @@ with a non-empty signature. The result is the validated certificate with issuer 
 theorem sign_ok_iff (E : SignEnv) (signer : Option Cert) (keyCurve : Nat) (t c : Cert) :
     signWith E signer keyCurve t = .ok c ↔
       keyCurve = t.curve ∧ ∃ iss, issuerOK E signer t iss ∧
-      ∃ v, validateVersion { t with issuer := iss, signature := [] } = some (.ok v) ∧
+      ∃ v, validateVersion (fromTBS t iss) = some (.ok v) ∧
       ∃ bytes sig0 sig, E.tbsBytes v = some bytes ∧ E.sign bytes = some sig0 ∧
         (if keyCurve = curveP256 then E.normalize sig0 else some sig0) = some sig ∧ sig ≠ [] ∧
         c = { v with signature := sig } :=
@@ -44,26 +44,38 @@ the signer's fingerprint as issuer (empty when self-signed), a non-empty signatu
 theorem issued_fields (E : SignEnv) (signer : Option Cert) (keyCurve : Nat) (t c : Cert)
     (h : signWith E signer keyCurve t = .ok c) :
     c.version = t.version ∧ c.curve = t.curve ∧ c.curve = keyCurve ∧ c.name = t.name ∧ c.groups = t.groups ∧
-    c.isCA = t.isCA ∧ c.notBefore = t.notBefore ∧ c.notAfter = t.notAfter ∧ c.publicKey = t.publicKey ∧
+    c.isCA = t.isCA ∧ c.notBefore = floorSec t.notBefore ∧ c.notAfter = floorSec t.notAfter ∧
+    c.publicKey = t.publicKey ∧
     (∀ n, n ∈ c.networks ↔ n ∈ t.networks) ∧ (∀ n, n ∈ c.unsafeNetworks ↔ n ∈ t.unsafeNetworks) ∧
     issuerOK E signer t c.issuer ∧ c.signature ≠ [] := by
   obtain ⟨hk, iss, hi, v, hv, bytes, sig0, sig, -, -, -, hne, rfl⟩ := (signWith_ok_iff E signer keyCurve t c).mp h
   obtain ⟨h1, h2, h3, h4, h5, h6, h7, h8, h9, -, h11, h12⟩ := validateVersion_ok hv
-  simp only at h1 h2 h3 h4 h5 h6 h7 h8 h9 h11 h12 ⊢
+  simp only [fromTBS] at h1 h2 h3 h4 h5 h6 h7 h8 h9 h11 h12 ⊢
   rw [h8]
   exact ⟨h1, h2, by rw [h2, hk], h3, h4, h5, h6, h7, h9, h11, h12, hi, hne⟩
 
 /-- **Issuance never exceeds the signing CA** (window, groups, networks, unsafe networks), the issued
-certificate is not a CA and names the signer's fingerprint as its issuer. -/
+certificate is not a CA and names the signer's fingerprint as its issuer. The issued bounds are the requested
+ones floored to whole seconds; the CA's `notBefore` is a whole second (`hws`) for every certificate this
+package decodes or issues (`issued_whole_seconds`). -/
 theorem issued_within_signer (E : SignEnv) (ca : Cert) (keyCurve : Nat) (t c : Cert)
-    (h : signWith E (some ca) keyCurve t = .ok c) :
+    (h : signWith E (some ca) keyCurve t = .ok c) (hws : ca.notBefore % 1000000000 = 0) :
     within ca c ∧ c.isCA = false ∧ E.K.fingerprint ca = some c.issuer := by
   obtain ⟨-, -, -, -, h4, h5, h6, h7, -, h11, h12, hi, -⟩ := issued_fields E (some ca) keyCurve t c h
   obtain ⟨hca, ⟨w1, w2, w3, w4, w5⟩, hf⟩ := hi
   refine ⟨?_, by rw [h5, hca], hf⟩
   unfold within withinFields
   rw [h4, h6, h7]
-  exact ⟨w1, w2, w3, (netsWithin_congr _ _ _ h11).mpr w4, (netsWithin_congr _ _ _ h12).mpr w5⟩
+  refine ⟨?_, ?_, w3, (netsWithin_congr _ _ _ h11).mpr w4, (netsWithin_congr _ _ _ h12).mpr w5⟩
+  · unfold floorSec; omega
+  · unfold floorSec; omega
+
+/-- Issued certificates have whole-second validity bounds (what both wire formats store). -/
+theorem issued_whole_seconds (E : SignEnv) (signer : Option Cert) (keyCurve : Nat) (t c : Cert)
+    (h : signWith E signer keyCurve t = .ok c) :
+    c.notBefore % 1000000000 = 0 ∧ c.notAfter % 1000000000 = 0 := by
+  obtain ⟨-, -, -, -, -, -, h6, h7, -⟩ := issued_fields E signer keyCurve t c h
+  rw [h6, h7]; unfold floorSec; omega
 
 /-- A CA certificate is never signed by another certificate. -/
 theorem ca_not_signed_by_ca (E : SignEnv) (ca : Cert) (keyCurve : Nat) (t : Cert) (h : t.isCA = true) :
@@ -92,13 +104,13 @@ validity, for every blocklist not naming it, every pool that stores the signer u
 signature (the API does not bind key and signer). -/
 theorem sign_then_verify_partial (E : SignEnv) (p : Pool) (ca : Cert) (keyCurve : Nat) (t c : Cert) (tm : Int)
     (h : signWith E (some ca) keyCurve t = .ok c)
-    (hcurve : ca.curve = keyCurve)
+    (hcurve : ca.curve = keyCurve) (hws : ca.notBefore % 1000000000 = 0)
     (honest : E.K.checkSig c ca.publicKey = true)
     (hpool : p.cas.lookup c.issuer = some ca) (hiss : c.issuer ≠ "")
     (hblock : notBlocked E.K p c)
     (htime : validAt c tm) :
     ∃ cc, p.verifyCertificate E.K tm c = .ok cc := by
-  obtain ⟨hw, -, -⟩ := issued_within_signer E ca keyCurve t c h
+  obtain ⟨hw, -, -⟩ := issued_within_signer E ca keyCurve t c h hws
   obtain ⟨-, -, hc, -⟩ := issued_fields E (some ca) keyCurve t c h
   rw [Nebula.Lemmas.CAPool.accept_iff]
   refine ⟨hblock, hiss, ca, hpool, by rw [hcurve, hc], ?_, htime, honest, hw⟩
@@ -123,7 +135,7 @@ theorem sign_then_verify_full_false :
       signWith E (some ca) keyCurve t = .ok c ∧ E.K.checkSig c ca.publicKey = true ∧
       p.cas.lookup c.issuer = some ca ∧ c.issuer ≠ "" ∧ notBlocked E.K p c ∧ validAt c tm ∧
       p.verifyCertificate E.K tm c = .error .curveMismatch :=
-  ⟨exE, exPool, exCA, 0, exTBS, { exTBS with issuer := "ca01", signature := [9] }, 500,
+  ⟨exE, exPool, exCA, 0, exTBS, { exTBS with issuer := "ca01", signature := [9] }, 500000000000,
     by decide, by decide, by decide, by decide,
     ⟨"1eaf", by decide, by decide, "", by decide, Or.inl rfl⟩, by decide, by decide⟩
 
@@ -131,13 +143,13 @@ theorem sign_then_verify_full_false :
 
 example : (signWith exE (some exCA) 1 { exLeaf with issuer := "", signature := [] }).toBool = true := by decide
 example : signWith exE (some exCA) 1 { exLeaf with groups := [[3]] } = .error (.constraint .group) := by decide
-example : signWith exE (some exCA) 1 { exLeaf with notAfter := 901 } = .error (.constraint .expiresAfterCA) := by decide
+example : signWith exE (some exCA) 1 { exLeaf with notAfter := 900000000001 } = .error (.constraint .expiresAfterCA) := by decide
 example : signWith exE (some exCA) 1 { exLeaf with isCA := true } = .error .caSignedByAnother := by decide
 example : signWith exE none 1 exLeaf = .error .selfSignedNotCA := by decide
 example : (signWith exE none 1 exCA).toBool = true := by decide
-example : ∃ cc, exPool.verifyCertificate exE.K 500 { exLeaf with signature := [9] } = .ok cc :=
+example : ∃ cc, exPool.verifyCertificate exE.K 500000000000 { exLeaf with signature := [9] } = .ok cc :=
   sign_then_verify_partial exE exPool exCA 1 { exLeaf with issuer := "", signature := [] }
-    { exLeaf with signature := [9] } 500 (by decide) (by decide) (by decide) (by decide) (by decide)
+    { exLeaf with signature := [9] } 500000000000 (by decide) (by decide) (by decide) (by decide) (by decide) (by decide)
     ⟨"1eaf", by decide, by decide, "", by decide, Or.inl rfl⟩ (by decide)
 
 /-! ### P-256 low-S normalisation on the scalar level (`cert/p256`) -/
